@@ -30,6 +30,11 @@ def handle (p : List Sexp) : String :=
         let s := specRes n r
         if s == r then answer (roObs r)
         else answer (roObs r) (roObs s) (if storedProc tbl n then "stored_procedure_call_rejected" else "-")
+      else if wfSpecOnly n then
+        -- the source's table is unsound on a kind of this tree: the Spec is decided over the
+        -- repaired table (what the expectation demands), never a known region
+        let s := specRes n r
+        if s == r then answer (roObs r) else answer (roObs r) (roObs s) "-"
       else answer (roObs r) "?"
   | [Sexp.list [Sexp.atom "tx", t]] =>
     match parseNode t with
@@ -77,6 +82,9 @@ def handle (p : List Sexp) : String :=
         let gs := engineGate (mode == "ro") (mode == "locked") s
         if gs == g then answer (obsOf g)
         else answer (obsOf g) (obsOf gs) (if storedProc tbl n then "stored_procedure_call_rejected" else "-")
+      else if wfSpecOnly n then
+        let gs := engineGate (mode == "ro") (mode == "locked") (specRes n r)
+        if gs == g then answer (obsOf g) else answer (obsOf g) (obsOf gs) "-"
       else answer (obsOf g) "?"
   | [Sexp.list [Sexp.atom "sqltx", Sexp.atom label, Sexp.atom cls, _q, o]] =>
     -- READ ONLY transaction at the SQL level: the model does not see the tree the rule saw; the
